@@ -97,7 +97,8 @@ class TransformFrameworkStep(Step):
         """
         if isinstance(cfw, UUID) and self.location:
             data = FlightServer.download_table(self.location, str(cfw))
-            return data
+            # the flight server holds pyarrow tables: back to the format of the framework we transform from
+            return self.from_framework.convert_flyserver_data_back(data, self.transformer)
 
         if isinstance(cfw, UUID):
             raise ValueError("From_cfw is a UUID, but we are not using flightserver.")
